@@ -101,8 +101,10 @@ func c09DelimBody(tape *simrt.Tape, o simwork.Opts, res *simwork.Result) {
 		sizes = append(sizes, 1000, 65536)
 	}
 	cs.MaxSize = []int{256, 64, 4096}[tape.Choose(3, "maxsize")]
-	if o.Tier == "thorough" && tape.Bool(1, 4, "bigmax") {
+	if (o.Tier == "thorough" && tape.Bool(1, 4, "bigmax")) || (o.Tier != "thorough" && tape.Bool(1, 16, "bigmax")) {
+		// messages of tens of KiB (several reads, more than one allocation step)
 		cs.MaxSize = 70000
+		sizes = append(sizes, 33000, 40000, 65536)
 	}
 	cs.TimeoutMs = []int{1000, 10000, 20000, 50}[tape.Choose(4, "timeout")]
 	timeout := time.Duration(cs.TimeoutMs) * time.Millisecond
@@ -480,6 +482,11 @@ func c09CodecRun(t *testing.T, tape *simrt.Tape, o simwork.Opts) *simwork.Result
 	var ends []int
 	for i := 0; i < n; i++ {
 		size := []int{0, 1, 2, 7, 40, 300, 5000}[tape.Choose(7, "size")]
+		if tape.Bool(1, 128, "huge") && tape.Bool(1, 64, "huge2") {
+			// a long-lived stream carries many megabytes in total
+			size = 13 << 20
+			res.Probes["stream-above-16MiB"]++
+		}
 		m := &conformancev1.ConformancePayload{Data: make([]byte, size)}
 		for j := range m.Data {
 			m.Data[j] = byte(i*31 + j)
